@@ -64,7 +64,7 @@ def floors(tier):
             "classes": {"op:" + o: 20 for o in set(OPS)} | {"size:0": 5, "size:1": 10, "size:2": 10, "size:4": 10,
                                                         "pattern:duplicates": 50, "pattern:all_equal": 20,
                                                         "pattern:reversed": 20,
-                                                        "track_of_hundreds_of_observations": 100},
+                                                        "track_of_hundreds_of_observations": 100, "timestamps_carrying_a_time_zone_label": 400},
             "distinct_nontrivial": 100}
 
 
@@ -167,15 +167,24 @@ def build(times, start_id=0, with_second_feature=True):
                         times_ms=list(times))
     if len(times) == 0:
         return tr      # tracklib refuses to create a feature on an empty track
+    if _ZONE[0]:
+        tr.setTimeZone(_ZONE[0])
     tr.createAnalyticalFeature("id", [float(start_id + i) for i in range(len(times))])
     if with_second_feature:
         tr.createAnalyticalFeature("w", [1000.0 + 7 * (start_id + i) for i in range(len(times))])
     return tr
 
 
+# the time-zone LABEL of the timestamps (Track.setTimeZone): part of "its own timestamp"; the selecting operations are
+# run on tracks labelled +2 / -5 / +1 for two fifths of the cases (ObsTime ==, < and str() ignore the label)
+_ZONE = [0]
+ZONED_OPS = ("sort", "extract", "span", "mod_int", "mod_pattern", "gt", "lt", "remove_list", "remove_one", "pop", "slice",
+             "sort_radix", "remove_ends")
+
+
 def obs_tuple(o):
     return (o.position.getX(), o.position.getY(), o.position.getZ(), gen.obstime_fields(o.timestamp),
-            tuple(o.features))
+            tuple(o.features), getattr(o.timestamp, "zone", None))
 
 
 def snapshot(tr):
@@ -184,7 +193,7 @@ def snapshot(tr):
 
 
 def expected_tuple(i, ms):
-    return (100.0 + i, -i * 1.0, i / 2.0, gen.fields_from_ms(ms), (float(i), 1000.0 + 7 * i))
+    return (100.0 + i, -i * 1.0, i / 2.0, gen.fields_from_ms(ms), (float(i), 1000.0 + 7 * i), _ZONE[0])
 
 
 class Judge:
@@ -268,6 +277,9 @@ def run_case(case, ctx):
         cls.append("track_of_hundreds_of_observations")
     rank = tuple(sorted(set(times)).index(t) for t in times)
     sig = (op, rank)
+    _ZONE[0] = [0, 2, 0, -5, 0, 1, 0, 0, 2, 0][(n + case["rs"]) % 10] if op in ZONED_OPS and not big else 0
+    if _ZONE[0]:
+        cls.append("timestamps_carrying_a_time_zone_label")
 
     def T():
         return build(times)
